@@ -6,7 +6,6 @@ import os
 
 from harness.engine import termbytes
 from harness.engine import tlc as T
-from harness.engine.core import chunks
 
 SPEC = os.path.join(T.SPECS, "Sections")
 TAGS = ["info", "comment", "error", "b", "c1"]
@@ -309,8 +308,7 @@ def run(ctx):
         if nontrivial(case):
             ctx.nontriv(("r", t))
     ctx.sample({"random_case": {k: (v[:10] if k == "ops" else v) for k, v in cases[-1].items()}})
-    for pt, pc in zip(chunks(traces, 2500), chunks(cases, 2500)):
-        ctx.validate(SPEC, "SectionsTrace", "SectionsTrace.cfg", pt, cases=pc, name="recorded-sequences")
+    ctx.validate(SPEC, "SectionsTrace", "SectionsTrace.cfg", traces, cases=cases, name="recorded-sequences")
 
 
 def replay(ctx, path):
